@@ -315,3 +315,31 @@ T('c12-twin-fill', 'C12', 'func.py', "    y = np.ones(m) * z", "    y = np.full(
 T('c20-twin-stack', 'C20', 'svd.py', "    Y_res = [Y_curr[None, ...]]", "    Y_res = [Y_curr.reshape(1, Y_curr.shape[0], Y_curr.shape[1])]")
 T('c08-twin-ge', 'C08', 'maxvol.py', "    if n <= r:\n        raise ValueError('Input matrix should be \"tall\"')", "    if not n > r:\n        raise ValueError('Input matrix should be \"tall\"')")
 T('c01-twin-outer-plus', ['C01', 'C09'], 'act_two.py', "    Y = teneva.copy(Y1)\n    Y.extend(teneva.copy(Y2))\n    return Y", "    return teneva.copy(Y1) + teneva.copy(Y2)")
+
+
+# ------------------------------------------------------------------ round c rules
+M('c03-rel-by-norm', 'C03', 'svd.py', "    ss = s/s[0] if rel else s", "    ss = s/np.linalg.norm(s) if rel else s")
+M('c03-rel-by-last', 'C03', 'svd.py', "    ss = s/s[0] if rel else s", "    ss = s/s[-1] if rel else s")
+T('c03-twin-rel-if', 'C03', 'svd.py', "    ss = s/s[0] if rel else s", "    ss = s\n    if rel:\n        ss = s / s.max()")
+M('c12-basis-le2', 'C12', 'func.py', "    if m < 2:\n        return T\n\n    T[1] = X", "    if m <= 2:\n        return T\n\n    T[1] = X")
+T('c12-twin-basis-eq1', 'C12', 'func.py', "    if m < 2:\n        return T\n\n    T[1] = X", "    if m <= 1:\n        return T\n\n    T[1] = X")
+M('c13-core-one-tile', 'C13', 'anova.py', "    return np.kron(np.ones([1, n, 1]), np.eye(r)[:, None, :])", "    return np.tile(np.eye(r), (n, 1, 1)).reshape(r, n, r)")
+M('c13-core-one-axis', 'C13', 'anova.py', "    return np.kron(np.ones([1, n, 1]), np.eye(r)[:, None, :])", "    return np.kron(np.ones([1, 1, n]), np.eye(r)[:, :, None]).reshape(r, r, n)")
+T('c13-twin-core-one-tile', 'C13', 'anova.py', "    return np.kron(np.ones([1, n, 1]), np.eye(r)[:, None, :])", "    return np.tile(np.eye(r)[:, None, :], (1, n, 1))")
+T('c13-twin-core-one-repeat', 'C13', 'anova.py', "    return np.kron(np.ones([1, n, 1]), np.eye(r)[:, None, :])", "    return np.repeat(np.identity(r)[:, None, :], n, axis=1)")
+M('c14-no-stab', ['C14'], 'sample.py', "    Z, p = teneva.orthogonalize(Y, 0, use_stab=True)", "    Z = teneva.orthogonalize(Y, 0)")
+M('c14-stab-false', ['C14'], 'sample.py', "    Z, p = teneva.orthogonalize(Y, 0, use_stab=True)", "    Z, p = teneva.orthogonalize(Y, 0, use_stab=False), 0")
+T('c14-twin-stab-positional', 'C14', 'sample.py', "    Z, p = teneva.orthogonalize(Y, 0, use_stab=True)", "    Z, _p = teneva.orthogonalize(Y, 0, True)")
+M('c17-split-skeleton', 'C17', 'core.py', "        A, V = teneva.matrix_svd(A, e, r)\n        Y.append", "        A, V = teneva.matrix_skeleton(A, e, r)\n        Y.append")
+M('c18-flat-c-order', 'C18', 'grid.py', "    I = np.array(I, dtype=int).reshape((d, -1), order='F').T", "    I = np.array(I, dtype=int).reshape((d, -1)).T")
+M('c02-thr-true-scale', 'C02', 'transformation.py', "            e = e / np.sqrt(d-1) * np.linalg.norm(Z[-1]) # TODO!", "            e = e / np.sqrt(d-1) * np.linalg.norm(Z[-1]) * 2.**p")
+M('c11-stab-norm-sqrt', 'C11', 'act_one.py', "        return np.sqrt(v) if v > 0 else 0., p/2", "        return np.sqrt(v), p/2")
+T('c11-twin-norm-max', 'C11', 'act_one.py', "        return np.sqrt(v) if v > 0 else 0., p/2", "        return np.sqrt(max(v, 0.)), p/2")
+M('c09-poi-to-ind-inplace', 'C09', 'grid.py', "    n = grid_prep_opt(n, d, kind=int, reps=m)\n\n    if kind == 'uni':\n        I = Xsc * (n - 1)", "    n = grid_prep_opt(n, d, kind=int, reps=m)\n    n -= 1\n\n    if kind == 'uni':\n        I = Xsc * n")
+M('c01-interface-natural-stale-n', 'C01', 'act_one.py', None, None,
+  edits=[("    d = len(Y)\n    phi = [None] * (d+1)\n    phi[-1] = np.ones(1)\n\n    if ltr:", "    d, n_ = len(Y), teneva.shape(Y)\n    phi = [None] * (d+1)\n    phi[-1] = np.ones(1)\n\n    if ltr:"),
+         ("                phi[k] /= Y[k].shape[1]", "                phi[k] /= n_[k]")])
+M('c01-mean-wrong-size', 'C01', 'act_one.py', "        k = Y[i].shape[1]\n        if P is None:\n            p = np.ones(k) / k if norm else np.ones(k)", "        k = Y[i].shape[1]\n        if P is None:\n            p = np.ones(k) / Y[0].shape[1] if norm else np.ones(k)")
+M('c01-sum-normed', 'C01', 'act_one.py', "    return mean(Y, norm=False)", "    return mean(Y)")
+T('c01-twin-mean-mult', 'C01', 'act_one.py', "            p = np.ones(k) / k if norm else np.ones(k)", "            p = np.ones(k)\n            if norm:\n                p = p / k")
+T('c01-twin-interface-size', 'C01', 'act_one.py', "                phi[k] /= Y[k].shape[1]", "                phi[k] = phi[k] / len(Y[k][0])")
